@@ -1,5 +1,5 @@
 import AgdbServer.Lemmas.PathFiles
--- import AgdbServer.Lemmas.ServerInv
+import AgdbServer.Model.Server
 
 /-!
 # C26 — database files stay inside their owner's directory and never collide
@@ -124,6 +124,96 @@ theorem C26_owner_dirs_apart (D o₁ o₂ : Str) (ho₁ : validOwner o₁ = true
   have := List.append_cancel_left h
   simp at this
   exact hne this.1
+
+/-! ### rejection (server model, `Model/Server.lean`: the six routes that introduce a database name) -/
+
+section Rejected
+open AgdbServer.Server
+
+theorem step_of_error {s : State} {r : Req} {code : Nat} (h : Server.decide s r = .error code) :
+    step s r = (s, ⟨code, .none⟩) := by simp [step, h]
+
+theorem rejected_of_never_ok {s : State} {r : Req} (h : ∀ a, Server.decide s r ≠ .ok a) :
+    ∃ code, Server.decide s r = .error code ∧ step s r = (s, ⟨code, .none⟩) := by
+  cases hd : Server.decide s r with
+  | error code => exact ⟨code, rfl, step_of_error hd⟩
+  | ok a => exact absurd hd (h a)
+
+/-- **C26_rejected** (add, copy — user and admin routes): with a name that fails the validation the
+    handler returns an error (401/403/404/467 depending on what is checked first) — never an action —
+    and the whole server state (databases, grants, files) is unchanged. -/
+theorem C26_rejected (s : State) (c : Cred) (o d bad no : Str) (k : Kind) (h : validDb bad = false) :
+    (∃ code, Server.decide s (.dbAdd c o bad k) = .error code ∧ step s (.dbAdd c o bad k) = (s, ⟨code, .none⟩)) ∧
+    (∃ code, Server.decide s (.aDbAdd c o bad k) = .error code ∧ step s (.aDbAdd c o bad k) = (s, ⟨code, .none⟩)) ∧
+    (∃ code, Server.decide s (.dbCopy c o d bad) = .error code ∧ step s (.dbCopy c o d bad) = (s, ⟨code, .none⟩)) ∧
+    (∃ code, Server.decide s (.aDbCopy c o d no bad) = .error code ∧
+      step s (.aDbCopy c o d no bad) = (s, ⟨code, .none⟩)) := by
+  refine ⟨rejected_of_never_ok ?_, rejected_of_never_ok ?_, rejected_of_never_ok ?_, rejected_of_never_ok ?_⟩
+  · intro a ha
+    simp only [Server.decide] at ha
+    cases hu : s.authUser c with
+    | none => simp [hu] at ha
+    | some uid =>
+      simp only [hu, h] at ha
+      split at ha <;> simp at ha
+  · intro a ha
+    simp only [Server.decide, bind, Except.bind, userOr404] at ha
+    split at ha
+    · simp at ha
+    · cases hu : s.userByName o with
+      | none => simp [hu] at ha
+      | some u => simp [hu, h] at ha
+  · intro a ha
+    simp only [Server.decide, bind, Except.bind, findDbOr404] at ha
+    cases hu : s.authUser c with
+    | none => simp [hu] at ha
+    | some uid =>
+      simp only [hu] at ha
+      cases hf : s.findUserDb uid o d with
+      | none => simp [hf] at ha
+      | some dd =>
+        simp only [hf] at ha
+        cases hb : s.userById uid with
+        | none => simp [hb] at ha
+        | some u => simp [hb, h] at ha
+  · intro a ha
+    simp only [Server.decide, bind, Except.bind, findDbOr404, userOr404] at ha
+    split at ha
+    · simp at ha
+    · cases hu : s.userByName o with
+      | none => simp [hu] at ha
+      | some u =>
+        simp only [hu] at ha
+        cases hf : s.findUserDb u.id o d with
+        | none => simp [hf] at ha
+        | some dd =>
+          simp only [hf] at ha
+          cases hn : s.userByName no with
+          | none => simp [hn] at ha
+          | some nu => simp [hn, h] at ha
+
+/-- **C26_rejected** (rename): renaming to an invalid name never issues a rename action — the only
+    accepted case is the documented no-op "rename to the current name", which touches nothing. -/
+theorem C26_rejected_rename (s : State) (c : Cred) (o d bad : Str) (h : validDb bad = false) :
+    (step s (.dbRename c o d bad)).1 = s := by
+  cases hd : Server.decide s (.dbRename c o d bad) with
+  | error code => simp [step, hd]
+  | ok a =>
+    have : a = .none := by
+      simp only [Server.decide] at hd
+      cases hu : s.authUser c with
+      | none => simp [hu] at hd
+      | some uid =>
+        simp only [hu, h] at hd
+        split at hd
+        · simp at hd
+        · split at hd
+          · simpa using hd.symm
+          · simp at hd
+    subst this
+    simp [step, hd, applyAction]
+
+end Rejected
 
 /-! ### the defects of the unrepaired code (no validation: `validDbLegacy = true`) -/
 
